@@ -26,7 +26,7 @@ import (
 
 func init() {
 	register(&Prop{ID: "C17", Run: runC17, Race: true, Workers: 8, MinNontrivial: 300,
-		Rule:        "race-detector build; (a) first-use rounds: a fresh SP per round is hit at a barrier by 8-16 goroutines whose first operation needs the lazily built signing context (document builders, POST body, both redirect builders, Sign*, SigningContext), with the signingctx.* hooks yielding or sleeping 0-200us to widen the window; rounds in which >= 2 goroutines were inside the slow path are counted; (b) one long-lived SP per key configuration under 16 goroutines x a seeded mix of every public operation (build, sign, redirect, POST, metadata, validation of genuine and hostile SSO responses and logout messages, the unverified decoders); (c) sequential purity: configuration snapshot before/after, repeated calls, mutation of every returned result; oracle: zero race-detector reports; every concurrent result equals the result of the same operation computed on a private identical SP beforehand (random IDs and ECDSA signatures compared by validity, not bytes); configuration snapshot unchanged; repeated call same outcome; later results unaffected by mutation; non-trivial = operations checked; distinct by (phase, operation, input index); one caller-assembled document shared by all goroutines through the redirect and POST helpers; encryption keys without precomputed CRT values; returned values scribbled over in place; four goroutines validating on a provider without a clock, configuration compared afterwards; fixtures with blank entries in the requested authentication contexts; first-use rounds mixing metadata / validation calls among the signing ones with jittering field key stores, a round whose unfinished calls are all parked on locks with unchanged frames over five seconds is reported as never returning; class identical-validations-at-once (the same bytes validated by 4-12 goroutines at once, each result checked then scribbled over in turn)",
+		Rule:        "race-detector build; (a) first-use rounds: a fresh SP per round is hit at a barrier by 8-16 goroutines whose first operation needs the lazily built signing context (document builders, POST body, both redirect builders, Sign*, SigningContext), with the signingctx.* hooks yielding or sleeping 0-200us to widen the window; rounds in which >= 2 goroutines were inside the slow path are counted; (b) one long-lived SP per key configuration under 16 goroutines x a seeded mix of every public operation (build, sign, redirect, POST, metadata, validation of genuine and hostile SSO responses and logout messages, the unverified decoders); (c) sequential purity: configuration snapshot before/after, repeated calls, mutation of every returned result; oracle: zero race-detector reports; every concurrent result equals the result of the same operation computed on a private identical SP beforehand (random IDs and ECDSA signatures compared by validity, not bytes); configuration snapshot unchanged; repeated call same outcome; later results unaffected by mutation; non-trivial = operations checked; distinct by (phase, operation, input index); one caller-assembled document shared by all goroutines through the redirect and POST helpers; encryption keys without precomputed CRT values; returned values scribbled over in place; four goroutines validating on a provider without a clock, configuration compared afterwards; fixtures with blank entries in the requested authentication contexts; first-use rounds mixing metadata / validation calls among the signing ones with jittering field key stores, a round whose unfinished calls are all parked on locks with unchanged frames over five seconds is reported as never returning; class identical-validations-at-once (the same bytes validated by 4-12 goroutines at once, each result checked then scribbled over in turn); purity of the Sign* functions (the element passed in is unchanged after the returned one is altered) and of Validate / VerifyAssertionConditions on a decoded Response (indicators included)",
 		Assumptions: []string{"the race detector only sees executed interleavings", "SigningContext()'s return value is the SP's shared configuration object and is never mutated by the monitor"}})
 }
 
@@ -811,6 +811,69 @@ func runC17(c *mon.Ctx) {
 			}
 			if after := digestResponse(sp, enc); after != before {
 				cs.Violation("mutation-leaks:response", "mutating a returned Response/AssertionInfo changed a later validation result")
+			}
+		}
+		// what the Sign* functions hand back is the caller's to alter: the element passed in stays as it was, and signing it
+		// again gives the same message again
+		for si, signFn := range []func(*etree.Element) (*etree.Element, error){sp.SignAuthnRequest, sp.SignLogoutRequest, sp.SignLogoutResponse} {
+			var un *etree.Document
+			var err error
+			switch si {
+			case 0:
+				un, err = sp.BuildAuthRequestDocumentNoSig()
+			case 1:
+				un, err = sp.BuildLogoutRequestDocumentNoSig("user@example.org", "_session")
+			default:
+				un, err = sp.BuildLogoutResponseDocumentNoSig(sim.StatusSuccess, "_req")
+			}
+			if err != nil || un == nil || un.Root() == nil {
+				continue
+			}
+			first, err := signFn(un.Root())
+			if err != nil || first == nil {
+				continue
+			}
+			before := sim.ElementString(un.Root()) // (signing itself may normalise the element it is given; that is not the point here)
+			for _, ch := range first.ChildElements() {
+				if ch.Tag != "Signature" {
+					ch.SetText("mutated")
+					ch.CreateAttr("Mutated", "yes")
+				}
+			}
+			if kids := first.ChildElements(); len(kids) > 1 {
+				first.RemoveChild(kids[len(kids)-1])
+			}
+			first.CreateAttr("ID", "_mutated")
+			if after := sim.ElementString(un.Root()); after != before {
+				cs.Violation("mutation-leaks:signed-element", "altering the element returned by %s changed the element that was passed in:\n was %s\n now %s", []string{"SignAuthnRequest", "SignLogoutRequest", "SignLogoutResponse"}[si], trunc(before, 300), trunc(after, 300))
+				break
+			}
+			c.Count("ops_checked", 1)
+		}
+		// Validate judges the decoded Response it is given and leaves it as it is (a Response decoded by a verifying
+		// provider keeps its indicators when a second, non-verifying provider looks at it)
+		{
+			g := GenGenuine(r, w, GenOpts{MaxAssertions: 2, NoCR: true})
+			if doc, err := sim.BuildResponse(g.Rec, g.Style); err == nil {
+				verifying, _, _ := NewSP(now, w.IdP...)
+				verifying.SPKeyStore = &RSAKeyStore{C: w.SPEnc}
+				if resp, err := verifying.ValidateEncodedResponse(sim.Encode(doc, sim.RawLevel)); err == nil {
+					was := digestOfResponse(resp)
+					for _, skip := range []bool{true, false} {
+						other, _, _ := NewSP(now, w.IdP...)
+						other.SkipSignatureValidation = skip
+						other.AllowMissingAttributes = true
+						_ = other.Validate(resp)
+						if _, werr := other.VerifyAssertionConditions(&resp.Assertions[0]); werr != nil {
+							_ = werr
+						}
+						if is := digestOfResponse(resp); is != was {
+							cs.Violation("input-modified:Validate", "Validate / VerifyAssertionConditions (SkipSignatureValidation=%v) changed the decoded Response they were given", skip)
+							break
+						}
+					}
+					c.Count("ops_checked", 2)
+				}
 			}
 		}
 		// validation on rarely taken paths must not rewrite the configured store: a KeyInfo-less signature against a
